@@ -1386,6 +1386,12 @@ class Exec:
             if k == 'array':
                 self.bounds(self.idx_ok(i, len(x)), 'index out of range ' + where)
                 regs[ins['r']] = self.select_chain(i, 0, x, ins['t']) if isinstance(i, z3.ExprRef) else x[i]
+            elif k == 'string':
+                if isinstance(x, Opaque):
+                    raise Unsupported('index of opaque string')
+                bs = str_bytes(x)
+                self.bounds(self.idx_ok(i, len(bs)), 'index out of range (string) ' + where)
+                regs[ins['r']] = self.select_chain(i, 0, bs, self.t_uint8) if isinstance(i, z3.ExprRef) else bs[i]
             else:
                 raise Unsupported('Index on ' + k)
         elif op == 'Store':
